@@ -2,7 +2,7 @@
 From Coq Require Import NArith Bool List Lia FMapPositive.
 From RS.Gen Require Import Prelude GenConsts.
 From RS.Model Require Import Field Sched Codec Machine.
-From RS.Proofs Require Import ShardLen.
+From RS.Proofs Require Import ShardLen DecShape.
 Import ListNotations.
 Local Open Scope N_scope.
 
@@ -47,6 +47,22 @@ Theorem C12_cfg_invariant :
   (forall x s x', enc_cfg x -> enc_add x s = inl x' -> enc_cfg x').
 Proof. split; [exact enc_make_cfg|exact enc_add_cfg]. Qed.
 Print Assumptions C12_cfg_invariant.
+
+(* decoder side of the shape: every restored shard - in the iterator and through
+   restored_original(i) - has exactly shard_bytes bytes, for every decoder the machine can produce
+   (dec_cfg is established by every constructor/reset and preserved by successful adds and by
+   dropping a result) and whatever shards it was given *)
+Theorem C12_res_shape : forall junk ep y probes y' it pr, dec_cfg y ->
+  dec_decode junk ep y probes = (y', RDec it pr) ->
+  Forall (fun ib => blen (snd ib) = dw_sb (d_work y)) it /\
+  (forall i b, In (i, Some b) pr -> blen b = dw_sb (d_work y)) /\ dec_cfg y'.
+Proof. exact dec_decode_shape. Qed.
+Print Assumptions C12_res_shape.
+Theorem C12_dec_cfg_invariant :
+  (forall c e K R sb w y a, dec_make c e K R sb w = inl (y, a) -> dec_cfg y) /\
+  (forall y a y', dec_cfg y -> PermFacts.dec_add y a = inl y' -> dec_cfg y').
+Proof. split; [exact dec_make_cfg|exact dec_add_cfg]. Qed.
+Print Assumptions C12_dec_cfg_invariant.
 
 (* restored_original(i): Some only for in-range indexes that were not given *)
 Theorem C12_res : forall junk ep x probes x' it pr i b,
